@@ -21,8 +21,10 @@ T_END, DT = 1.0, 0.125
 
 # ---------------------------------------------------------------------------------------------- impl side (worker)
 def build(tree, name="net"):
-    """tree = {"nodes": [[name, [opnames], k]]} | {"subs": [[name, tree]]};  ONE OperatorTemplate object per name"""
+    """tree = {"nodes": [[name, [opnames], k]], "pops": [[name, [opname], [k_unit...]]]} | {"subs": [[name, tree]]};
+    ONE OperatorTemplate object per name; a population is a PopulationTemplate with per-unit k"""
     from pyrates import OperatorTemplate, NodeTemplate, CircuitTemplate
+    from pyrates.frontend.template.population import PopulationTemplate
     ops = {"op": OperatorTemplate(name="op", equations=["x' = k"], variables={"x": "output(0.0)", "k": 1.0}, path=None),
            "oq": OperatorTemplate(name="oq", equations=["x' = k", f"z' = k + {ZOFF}.0"],
                                   variables={"x": "output(0.0)", "z": "variable(0.0)", "k": 1.0}, path=None),
@@ -31,7 +33,11 @@ def build(tree, name="net"):
         if "nodes" in c:
             nodes = {n: NodeTemplate(name=n, path=None, operators={ops[o]: {"k": float(Fr(k))} for o in onames})
                      for n, onames, k in c["nodes"]}
-            return CircuitTemplate(name=nm, path=None, nodes=nodes)
+            pops = {n: PopulationTemplate(n, NodeTemplate(name=n + "_unit", path=None, operators={ops[onames[0]]: {}}), len(ks),
+                                          params={f"{onames[0]}/k": [float(Fr(k)) for k in ks]})
+                    for n, onames, ks in c.get("pops", [])}
+            return CircuitTemplate(name=nm, path=None, nodes=nodes, populations=pops) if pops else \
+                CircuitTemplate(name=nm, path=None, nodes=nodes)
         return CircuitTemplate(name=nm, path=None, circuits={n: circ(n, s) for n, s in c["subs"]})
     return circ(name, tree)
 
@@ -47,6 +53,13 @@ def impl_gn(case):
         return {"raised": type(e).__name__}
     assert isinstance(r, list) and all(isinstance(x, str) for x in r), r
     return {"nodes": r}
+
+def lvl(x):
+    """one level of a column label: unit numbers come back as int or as float (when padded with nan)"""
+    import numbers
+    if isinstance(x, numbers.Integral) or (isinstance(x, float) and x.is_integer()):
+        return str(int(x))
+    return str(x)
 
 def impl_run(case):
     import numpy as np, math
@@ -89,7 +102,7 @@ def impl_run(case):
             return dict(layout=layout, raised=type(e).__name__, msg=str(e)[:200])
         cols = []
         for j, col in enumerate(df.columns):
-            lab = [str(x) for x in col if not (isinstance(x, float) and math.isnan(x))] if isinstance(col, tuple) else [str(col)]
+            lab = [lvl(x) for x in col if not (isinstance(x, float) and math.isnan(x))] if isinstance(col, tuple) else [str(col)]
             cols.append([lab, fracs(df.iloc[:, j].values)])
         return dict(layout=layout, times=fracs(df.index.values), cols=cols)
     finally:
@@ -135,7 +148,7 @@ def gen_tree(rng, depth, run, kpool, uneven=False):
 def leaves(tree, prefix=()):
     """generator aid: [(path tuple, ops, k)] depth first in declaration order"""
     if "nodes" in tree:
-        return [(prefix + (n,), ops, k) for n, ops, k in tree["nodes"]]
+        return [(prefix + (n,), ops, k) for n, ops, k in tree["nodes"] + tree.get("pops", [])]
     out = []
     for n, s in tree["subs"]:
         out += leaves(s, prefix + (n,))
@@ -196,6 +209,9 @@ MULTI_KEYS = ["v1", "out", "first", "r_e", "ab", "ab2", "a1"]
 def shuffle_tree(rng, tree):
     if "nodes" in tree:
         l = list(tree["nodes"]); rng.shuffle(l)
+        if "pops" in tree:
+            q = list(tree["pops"]); rng.shuffle(q)
+            return {"nodes": l, "pops": q}
         return {"nodes": l}
     l = [[n, shuffle_tree(rng, s)] for n, s in tree["subs"]]; rng.shuffle(l)
     return {"subs": l}
@@ -206,6 +222,13 @@ def gen_run(rng, in_guard_only=False):
         tree = gen_tree(rng, depth, True, kvalues(rng, 100))
         if len(leaves(tree)) >= 2 or rng.random() < 0.1:
             break
+    if depth == 0 and rng.random() < 0.6:
+        # populations (flat circuits, vectorize=True only): 2-5 units with distinct per-unit rates
+        kp = kvalues(rng, 100)
+        tree["pops"] = [[nm, [rng.choice(["op", "op", "oq"])], [str(kp.pop()) for _ in range(rng.randint(2, 5))]]
+                        for nm in rng.sample(["P", "Q"], rng.randint(1, 2))]
+        ks = [k for _, _, k in tree["nodes"]]
+        tree["pops"] = [[nm, o, [k if k not in ks else str(Fr(k) + 16) for k in kl]] for nm, o, kl in tree["pops"]]
     form = rng.choice(["dict", "dict", "list"])
     nreq = rng.choice([1, 1, 2, 2, 3])
     keys = rng.sample(SINGLE_KEYS if rng.random() < 0.75 else SINGLE_KEYS[:3] + MULTI_KEYS, nreq)
@@ -215,6 +238,10 @@ def gen_run(rng, in_guard_only=False):
         tries += 1
         pat = gen_pattern(rng, tree)
         op, var = rng.choice([("op", "x"), ("op", "x"), ("oq", "x"), ("oq", "z"), ("ou", "u")])
+        if "pops" in tree and rng.random() < 0.5:      # address a population by name
+            nm, o, _ = rng.choice(tree["pops"])
+            pat, op = [nm], o[0]
+            var = rng.choice(list(STATEVARS[op]))
         den = py_denote(tree, pat, op, var)
         if not den and rng.random() < 0.9:
             continue
@@ -228,11 +255,12 @@ def gen_run(rng, in_guard_only=False):
         lv = rng.choice(leaves(tree))
         o = lv[1][0]
         reqs.append(["z", "/".join(list(lv[0]) + [o, "u" if o == "ou" else "x"])])
-    return dict(kind="run", tree=tree, form=form, reqs=reqs, vectorize=rng.random() < 0.65)
+    return dict(kind="run", tree=tree, form=form, reqs=reqs, vectorize=True if "pops" in tree else rng.random() < 0.65)
 
 def run_variants(rng, case):
     """the same request on the same circuit with shuffled declaration order / the other vectorize setting"""
-    return [dict(case, tree=shuffle_tree(rng, case["tree"])), dict(case, vectorize=not case["vectorize"])]
+    v = [dict(case, tree=shuffle_tree(rng, case["tree"]))]
+    return v if "pops" in case["tree"] else v + [dict(case, vectorize=not case["vectorize"])]
 
 def nontrivial(case):
     lv = leaves(case["tree"])
@@ -252,6 +280,7 @@ Import ListNotations.
 Open Scope string_scope.
 Open Scope list_scope.
 Definition mkq (num : Z) (den : positive) : Qc := Q2Qc (num # den).
+Definition FX : fixes := {| fix_D31 := @D31@; fix_overlap := @OVERLAP@ |}.
 Definition qeqb (a b : Qc) : bool := Qeq_bool (this a) (this b).
 Fixpoint leqb {A} (e : A -> A -> bool) (a b : list A) : bool :=
   match a, b with [], [] => true | x :: a', y :: b' => e x y && leqb e a' b' | _, _ => false end.
@@ -261,7 +290,7 @@ Definition res_eqb {A} (e : A -> A -> bool) (a b : res A) : bool :=
   match a, b with Ok x, Ok y => e x y | Err x, Err y => err_eqb x y | _, _ => false end.
 (* ---- stream gn *)
 Definition gcase := (tree * varid * list string * res (list path))%type.
-Definition g_okI (c : gcase) := let '(t, v, pat, ob) := c in res_eqb (leqb path_eqb) (get_nodes t v pat) ob.
+Definition g_okI (c : gcase) := let '(t, v, pat, ob) := c in res_eqb (leqb path_eqb) (get_nodes_gen FX t v pat) ob.
 Definition g_okS (c : gcase) := let '(t, v, pat, ob) := c in res_eqb (leqb path_eqb) (Ok (path_denotation t v pat)) ob.
 Definition g_wf (c : gcase) := let '(t, v, pat, ob) := c in wfb t.
 Definition g_g1 (c : gcase) := let '(t, v, pat, ob) := c in names_resolve t pat.
@@ -269,17 +298,21 @@ Definition g_g2 (c : gcase) := let '(t, v, pat, ob) := c in not_too_long t pat.
 Definition g_g3 (c : gcase) := let '(t, v, pat, ob) := c in not_too_short t pat.
 (* ---- stream run *)
 Definition obs := res (list (label * list Qc)).
-Definition rcase := (tree * layout * form * list request * list Qc * list Qc * list (path * Qc) * obs)%type.
+Definition rcase := (tree * layout * form * list request * list Qc * list Qc * (list (path * nat * Qc) * list (path * nat)) * obs)%type.
 Definition traj (times : list Qc) (r : Qc) : list Qc := map (fun t => (r * t)%Qc) times.
 Definition col_eqb (a b : label * list Qc) := leqb String.eqb (fst a) (fst b) && leqb qeqb (snd a) (snd b).
 Definition obs_eqb : obs -> obs -> bool := res_eqb (leqb col_eqb).
-Definition rate_of (vr : list (path * Qc)) (v : path) : Qc := match passoc v vr with Some r => r | None => mkq (-1) 1 end.
+Fixpoint rate_of (vr : list (path * nat * Qc)) (v : path * nat) : Qc :=
+  match vr with
+  | [] => mkq (-1) 1
+  | (p, j, r) :: vr' => if path_eqb (fst v) p && Nat.eqb (snd v) j then r else rate_of vr' v
+  end.
 Definition r_spec (c : rcase) : obs :=
   let '(t, L, f, reqs, times, rates, vr, ob) := c in
-  bind (spec_result t f reqs) (fun l => Ok (map (fun lv => (fst lv, traj times (rate_of vr (snd lv)))) l)).
+  bind (spec_result t (snd vr) f reqs) (fun l => Ok (map (fun lv => (fst lv, traj times (rate_of (fst vr) (snd lv)))) l)).
 Definition r_impl (c : rcase) : obs :=
   let '(t, L, f, reqs, times, rates, vr, ob) := c in
-  bind (run_columns t L f reqs) (fun l =>
+  bind (run_columns_gen FX t L f reqs) (fun l =>
     fold_right (fun (x : label * (string * nat)) acc =>
                   match column_value (mkq 0 1) L rates (snd x) with
                   | Some r => bind acc (fun cols => Ok ((fst x, traj times r) :: cols))
@@ -294,12 +327,19 @@ Definition r_g3 (c : rcase) := let '(t, L, f, reqs, times, rates, vr, ob) := c i
 Definition r_g4 (c : rcase) := let '(t, L, f, reqs, times, rates, vr, ob) := c in
   match f with DictForm => no_overlap t reqs | _ => true end.
 Definition r_g5 (c : rcase) := let '(t, L, f, reqs, times, rates, vr, ob) := c in
-  match tsvi L with [] => true | _ => false end.
+  match f with DictForm => no_pop_in_wildcard t (snd vr) reqs | _ => true end.
 Definition r_g6 (c : rcase) := let '(t, L, f, reqs, times, rates, vr, ob) := c in
-  covers L (map snd (spec_columns t f reqs)).
+  match tsvi L with [] => true | _ => false end.
+Definition r_g7 (c : rcase) := let '(t, L, f, reqs, times, rates, vr, ob) := c in
+  covers L (snd vr) (requested t f reqs).
 """
+# VERIF_C06_FIXES=D31,overlap : evaluate the mechanism model with the proposed repairs switched on and drop their guards
+# (used to validate /verif/fixes/proposed_fix_C06_*.diff on a scratch worktree; never set for the normal check)
+FIXES = [x for x in os.environ.get("VERIF_C06_FIXES", "").split(",") if x]
+HEADER = HEADER.replace("@D31@", "true" if "D31" in FIXES else "false").replace("@OVERLAP@", "true" if "overlap" in FIXES else "false")
+DROPPED = (["names_resolve"] if "D31" in FIXES else []) + (["no_overlap"] if "overlap" in FIXES else [])
 G_GUARDS = ["names_resolve", "not_too_long", "not_too_short"]
-R_GUARDS = ["names_resolve", "not_too_long", "not_too_short", "no_overlap", "fresh_template", "covers"]
+R_GUARDS = ["names_resolve", "not_too_long", "not_too_short", "no_overlap", "no_pop_in_wildcard", "fresh_template", "covers"]
 
 def cpath(p):
     return clist([cstr(x) for x in p])
@@ -307,7 +347,7 @@ def cpath(p):
 def ctree(tree):
     if "nodes" in tree:
         items = []
-        for n, ops, k in tree["nodes"]:
+        for n, ops, k in tree["nodes"] + tree.get("pops", []):
             nd = clist([f"({cstr(o)}, {cpath(OPVARS[o])})" for o in ops])
             items.append(f"({cstr(n)}, Leaf {nd})")
         return "Circ " + clist(items)
@@ -324,7 +364,7 @@ def coq_gn(case, out):
 
 def clayout(L):
     labels = clist([f"({cpath(k)}, {cpath(v)})" for k, v in L["labels"]])
-    vidx = clist([f"({cpath(k)}, {cnat(v[0])})" for k, v in L["vidx"] if len(v) == 1])
+    vidx = clist([f"({cpath(k)}, {clist([cnat(i) for i in v])})" for k, v in L["vidx"]])
     f2b = clist([f"({cpath(k)}, {cstr(v)})" for k, v in L["f2b"]])
     svi = clist([f"({cstr(k)}, ({cnat(v[0])}, {cnat(v[1])}))" for k, v in L["svi"]])
     tsvi = clist([f"({cstr(k)}, {'None' if v is None else f'(Some ({cnat(v[0])}, {cnat(v[1])}))'})" for k, v in L["tsvi"]])
@@ -338,18 +378,21 @@ def coq_run(case, out):
         parts = p.split("/")
         reqs.append(f"({cstr(key)}, ({cpath(parts[:-2])}, ({cstr(parts[-2])}, {cstr(parts[-1])})))")
     times = [str(Fr(i) * Fr(DT)) for i in range(int(round(T_END / DT)))]
-    vr = []
+    vr, U = [], []
     for p, ops, k in leaves(case["tree"]):
+        if isinstance(k, list):
+            U.append(f"({cpath(list(p))}, {cnat(len(k))})")
         for o in ops:
             for sv, off in STATEVARS[o].items():
-                vr.append(f"({cpath(list(p) + [o, sv])}, {cq(Fr(k) + off)})")
+                for j, kj in enumerate(k if isinstance(k, list) else [k]):
+                    vr.append(f"({cpath(list(p) + [o, sv])}, {cnat(j)}, {cq(Fr(kj) + off)})")
     if "raised" in out:
         ob = f"Err {out['raised']}"
     else:
         times = out["times"]
         ob = "Ok " + clist([f"({cpath(lab)}, {clist([cq(v) for v in vals])})" for lab, vals in out["cols"]])
     return (f"({ctree(case['tree'])}, {clayout(L)}, {form}, {clist(reqs)}, {clist([cq(t) for t in times])}, "
-            f"{clist([cq(r) for r in L['rates']])}, {clist(vr)}, ({ob} : obs))")
+            f"{clist([cq(r) for r in L['rates']])}, ({clist(vr)}, {clist(U)}), ({ob} : obs))")
 
 def model_compare(ctx, kind, cases, outs, tag):
     """returns (bad_vs_Impl, bad_vs_Spec, not_wf, {guard name: indices where it is false})"""
@@ -367,15 +410,17 @@ def model_compare(ctx, kind, cases, outs, tag):
         badI += [s + i for i in ls[0]]; badS += [s + i for i in ls[1]]; nwf += [s + i for i in ls[2]]
         for g, l in zip(guards, ls[3:]):
             gf[g] += [s + i for i in l]
+    for g in DROPPED:
+        gf.pop(g, None)
     return badI, badS, nwf, gf
 
 def model_outputs(ctx, case, out):
     if case["kind"] == "gn":
         body = (f"Definition c : gcase := {coq_gn(case, out)}.\n"
-                "Eval vm_compute in (let '(t, v, pat, ob) := c in (get_nodes t v pat, path_denotation t v pat)).\n")
+                "Eval vm_compute in (let '(t, v, pat, ob) := c in (get_nodes_gen FX t v pat, path_denotation t v pat)).\n")
     else:
         body = (f"Definition c : rcase := {coq_run(case, out)}.\n"
-                "Eval vm_compute in (let '(t, L, f, reqs, times, rates, vr, ob) := c in (run_columns t L f reqs, spec_columns t f reqs)).\n")
+                "Eval vm_compute in (let '(t, L, f, reqs, times, rates, vr, ob) := c in (run_columns_gen FX t L f reqs, spec_columns t (snd vr) f reqs)).\n")
     try:
         return coq_eval(ctx, "c06_show", HEADER, body)[:5000]
     except Exception as e:
@@ -456,6 +501,7 @@ def check(ctx):
                 run_vectorized=sum(1 for c in rn if c["vectorize"]),
                 run_wildcard=sum(1 for c in rn if any("all" in p.split("/")[:-2] for _, p in c["reqs"])),
                 run_several_keys=sum(1 for c in rn if len(c["reqs"]) > 1),
+                run_with_populations=sum(1 for c in rn if "pops" in c["tree"]),
                 run_raised=sum(1 for c, o in zip(all_cases, all_outs) if c["kind"] == "run" and isinstance(o, dict) and "raised" in o),
                 outside_guards=len(gv))
     write_evidence(ctx, evaluations=len(all_cases), distinct_nontrivial=len(nt),
@@ -463,7 +509,8 @@ def check(ctx):
                         "patterns (names, 'all' at random levels, non-existent names, too short / too long) x var_identifier; non-trivial = "
                         ">= 2 leaves and a wildcard or >= 2 pattern levels.  run: circuits with distinct dyadic rates per node, 2 node types, "
                         "dict/list outputs, 1-3 keys, vectorize on/off, each case also with shuffled declaration order and with the other "
-                        "vectorize setting; non-trivial = >= 2 leaves and a returned column of a node other than the first declared one.  "
+                        "vectorize setting; 40 % of the flat circuits also carry 1-2 PopulationTemplates of 2-5 units with distinct per-unit rates, "
+                        "requested alone, next to scalar outputs, by wildcard and in list form; non-trivial = >= 2 leaves and a returned column of a node other than the first declared one.  "
                         "distinct = distinct canonical JSON",
                    samples=[gn[0] if gn else None, rn[0] if rn else None],
                    extra=dict(input_distribution=hist, impl_vs_model_mismatches=len(badI), impl_vs_spec_mismatches=len(badS)),
@@ -472,7 +519,7 @@ def check(ctx):
                                  "from an independent compilation of the same circuit by the real code"],
                    assumptions=["node and circuit names contain no '/' and none is called 'all' (wfb)",
                                 "how apply() computes the layout is C04; here the layout is an input of the output-stage model",
-                                "population outputs (one column per unit) are not modelled"])
+                                "populations: flat circuits, vectorize=True (with vectorize=False a PopulationTemplate does not compile: ValueError)"])
 
 def depth_of(tree):
     if "nodes" in tree:
